@@ -107,9 +107,39 @@ def judgeLine (line : String) : String :=
   match toks.find? (fun t => (t.splitOn ":panic").length > 1 || t == "r9:deadlock" || t == "r9:diverged") with
   | some t => if t == "r9:diverged" then "skip diverged" else s!"violates no-crash {t}"
   | none =>
-    match toks.mapM parseTok with
+    -- results the wrapper does not report (`r<t>:?`, only for `clos`): the history is linearizable if it is for SOME result the
+    -- call may have had (it stored its own element, or it found one of the values ever offered for that key)
+    let vals : List Val := (toks.filterMap (fun t => if t.startsWith "c" then
+        (match ((t.drop 1).toString.splitOn ":") with
+         | _ :: "clos" :: _ :: v :: _ => parseVal v
+         | _ :: "store" :: _ :: v :: _ => parseVal v
+         | _ => none) else none)).eraseDups
+    let rec fill (todo : List String) (lastCall : List (Nat × Val)) (acc : List Ev) (fuel : Nat) : Option Bool :=
+      match fuel, todo with
+      | 0, _ => some false
+      | _, [] => some (judge acc.reverse)
+      | fuel + 1, t :: rest =>
+        if t.endsWith ":?" then
+          match ((t.drop 1).toString.splitOn ":").head?.bind (·.toNat?) with
+          | none => none
+          | some th =>
+            match lastCall.find? (·.1 == th) with
+            | none => none
+            | some (_, own) =>
+              let cands := Res.stored own false :: (vals.filter (· != own)).map (fun o => Res.stored o true)
+              some (cands.any (fun r => (fill rest lastCall (.ret th r :: acc) fuel).getD false))
+        else
+          match parseTok t with
+          | none => none
+          | some ev =>
+            let lastCall := match ev with
+              | .call th (.cacheLoadOrStore _ v) => (th, v) :: lastCall.filter (·.1 != th)
+              | _ => lastCall
+            fill rest lastCall (ev :: acc) fuel
+    match fill toks [] [] (toks.length + 1) with
     | none => "bad-op"
-    | some H => if judge H then "lin ok" else "lin none"
+    | some true => "lin ok"
+    | some false => "lin none"
 
 /-! ### model replay -/
 
@@ -133,7 +163,17 @@ structure Prog where
   threads : List (List String)
   post : List String
 
-def splitOps (s : String) : List String := if s = "-" || s = "" then [] else s.splitOn ","
+/-- Operations of the wrapper objects (harness/c14/wrap_test.go) in terms of the operations they are specified by:
+    `hold:k:id` (BlockWise.Do: register the request … remove it) is `los:k:id` followed by `delete:k`; `copy:k`
+    (getSentRequest) and `code:k` (getSendingMessageCode) are look-ups `load:k`. -/
+def expandOp (o : String) : List String :=
+  match o.splitOn ":" with
+  | ["hold", k, id] => [s!"los:{k}:{id}", s!"delete:{k}"]
+  | ["copy", k] => [s!"load:{k}"]
+  | ["code", k] => [s!"load:{k}"]
+  | _ => [o]
+
+def splitOps (s : String) : List String := if s = "-" || s = "" then [] else (s.splitOn ",").flatMap expandOp
 
 def parseProg (line : String) : Option Prog :=
   match words line with
@@ -164,7 +204,10 @@ structure RState where
 /-- emit a token; `none` when it contradicts the implementation's history -/
 def emit (r : RState) (tok : String) : Option RState :=
   match r.want with
-  | w :: ws => if w == tok then some { r with out := tok :: r.out, want := ws } else none
+  | w :: ws =>
+    -- `r<t>:?`: the implementation's wrapper does not report this result (messageCache.Store)
+    let wild := w.endsWith ":?" && tok.startsWith "r" && (tok.splitOn ":").head? == (w.splitOn ":").head?
+    if w == tok || wild then some { r with out := tok :: r.out, want := ws } else none
   | [] => none
 
 /-- the implementation's result token of the call that thread `t` is about to make / is making -/
